@@ -196,6 +196,17 @@ func evalDoc(c *rt.Case) (bool, string, string, error) {
 		return false, "", "", fmt.Errorf("not mine")
 	}
 	os := optSet{c.Cfg, optByName(c.Cfg)}
+	if strings.HasPrefix(c.Doc, "large#") {
+		var i, v int
+		fmt.Sscanf(c.Doc, "large#%d/variant%d", &i, &v)
+		large := docgen.LargeDocs()
+		if i >= len(large) {
+			return false, "", "", fmt.Errorf("no such large document")
+		}
+		cc := *c
+		cc.Doc = [](func(string) string){func(s string) string { return s }, func(s string) string { return s[:len(s)-1] }, func(s string) string { return s + "x" }, func(s string) string { return " \n" + s + "\t " }}[v](large[i])
+		c = &cc
+	}
 	var fails bool
 	var e, g string
 	emit := func(class string, _ rt.Case, exp, got string) { fails, e, g = true, exp, got }
